@@ -1,16 +1,23 @@
 """
 C03 -- The model mirrors the source text, independent of formatting.
 
-R1  pending-attribute typestate: the parser x builder automaton (extracted from the code, event alphabet from the grammar)
-    is explored exhaustively: (a) a queued attribute is never overwritten, (b) the schema's attribute lists are never read
-    and the response schema is never started while an attribute is pending, (c) nothing is pending at end of input -
-    for every line shape and every way the text can end.
-R2  source order, exactly once: fields/constants are only appended, only from the deferred callbacks; every attribute
-    statement queues exactly one callback; visitor children map to the grammar positions (type, name, value).
-R3  directive table and effects (shared with C05.R8).
+The parser's visitors and the builder are abstractly evaluated over abstract texts (parser_common: the visits parsimonious
+makes, children before parents, line by line) and what reaches the constructors of the type model is compared with the
+Specification's reading of the same lines.
+
+R2  every attribute statement yields exactly one model attribute built from the statement's own type, name and value
+    (children at the grammar positions) and the comment flushed after it; fields and constants keep their source order.
+R3  directive tables (shared with C05.R8): which sequences of directives, attributes and markers are accepted, and with what
+    effect - evaluated through parser and builder together.
 R4  composite construction: attributes / doc / deprecated flow from the builder into the composite; request/response order.
-R5  line endings and blanks: end_of_line = \\r?\\n, `_` = blanks and tabs, final end-of-line optional, trailing blanks and
-    comments allowed after a statement.
+R5  line endings and blanks as regular languages: end_of_line = \\r?\\n, `_` = blanks and tabs, final end-of-line optional,
+    trailing blanks and comments allowed after a statement.
+R6  document model: all sequences of line shapes up to a bound (fields with and without trailing comment, constants, paddings,
+    comment lines, empty lines, lines of blanks, schema reads, `---`), @sealed first or last, with and without a final newline:
+    every attribute exactly once, in order, in its own section, with exactly its comment block; section docs; schema reads
+    see exactly the fields above them.
+(R1, a typestate machine read off the code, was retired: it depended on the private representation of the pending-commit
+slot, the header flag and the list of sections; R6 decides its clauses extensionally.)
 """
 from __future__ import annotations
 
@@ -20,7 +27,6 @@ from typing import Any, Dict, List, Optional, Sequence, Set, Tuple
 from .. import rx
 from ..core import AnalysisError, ClassInfo, Ctx, FuncInfo, body_without_docstring, calls_in, dotted, kwarg, norm, walk_no_nested
 from ..peg import Grammar
-from ..typestate import Effect, Interp, Pipeline, State
 
 STMT_RULES = {
     "constant": "statement_constant",
@@ -65,141 +71,6 @@ def may_contain(g: Grammar, node: Any, target: str, seen: Optional[Set[str]] = N
     if t in ("opt", "star", "plus", "not", "and"):
         return may_contain(g, node[1], target, seen)
     return False
-
-
-class Automaton:
-    """Exhaustive exploration of the extracted pipeline over grammar-shaped event sequences."""
-
-    def __init__(self, ctx: Ctx):
-        self.ctx = ctx
-        self.pl = Pipeline(ctx)
-        self.g = Grammar.load(ctx.repo)
-        self.parser = self.pl.parser
-        for r in list(STMT_RULES.values()) + ["identifier", "expression_atom", "line", "end_of_line", "comment", "definition"]:
-            self.g.rule(r)
-        for m in ["visit_identifier", "visit_expression_atom", "visit_line", "visit_end_of_line", "visit_comment"] + ["visit_" + r for r in STMT_RULES.values()]:
-            if ctx.repo.lookup_method(self.parser, m) is None:
-                raise AnalysisError("anchor _ParseTreeProcessor.%s missing" % m)
-        self.has_visit_definition = ctx.repo.lookup_method(self.parser, "visit_definition") is not None
-        self.violations: List[Dict[str, Any]] = []
-        self.states_seen: Set[State] = set()
-        self.transitions = 0
-        self.commits: List[Dict[str, Any]] = []
-
-    # ---- event -> effect
-    def _run(self, st: State, method: str, cls: Optional[ClassInfo] = None, line_empty: Optional[bool] = None, directive: Optional[str] = None) -> List[Tuple[State, List[Effect]]]:
-        it = Interp(self.pl, line_empty, directive)
-        return it.run_method(cls or self.parser, method, st)
-
-    def pre_events(self, kind: str) -> List[List[str]]:
-        rule = self.g.rule(STMT_RULES[kind])
-        must = must_contain(self.g, rule, "identifier")
-        may_id = may_contain(self.g, rule, "identifier")
-        may_expr = may_contain(self.g, rule, "expression_atom")
-        alts: List[List[str]] = []
-        if must:
-            alts.append(["IDENT"])
-        else:
-            alts.append([])
-            if may_id:
-                alts.append(["IDENT"])
-        if may_expr:
-            alts.append((["IDENT"] if must else []) + ["IDENT", "RESOLVE"])
-            alts.append((["IDENT"] if must else []) + ["RESOLVE"])  # an atom that is a literal: no identifier, no resolution effects
-        return alts
-
-    def line_shapes(self) -> List[Dict[str, Any]]:
-        shapes: List[Dict[str, Any]] = [
-            {"name": "empty", "stmt": None, "comment": False, "empty": True},
-            {"name": "blanks-only", "stmt": None, "comment": False, "empty": False},
-            {"name": "comment-only", "stmt": None, "comment": True, "empty": False},
-        ]
-        for kind in STMT_RULES:
-            dirs = DIRECTIVES if kind.startswith("directive") else [None]
-            for d in dirs:
-                for pre in self.pre_events(kind):
-                    for comment in (False, True):
-                        shapes.append({"name": "%s%s%s%s" % (kind, (":" + d) if d else "", "+" + "+".join(pre) if pre else "", "+comment" if comment else ""), "stmt": kind, "directive": d, "pre": pre, "comment": comment, "empty": False})
-        return shapes
-
-    def step_line(self, st: State, shape: Dict[str, Any]) -> List[Tuple[State, List[Effect]]]:
-        outs: List[Tuple[State, List[Effect]]] = [(st, [])]
-
-        def seq(method: str, **kw: Any) -> None:
-            nonlocal outs
-            nxt = []
-            for s, e in outs:
-                for s2, e2 in self._run(s, method, **kw):
-                    nxt.append((s2, e + e2))
-            outs = nxt
-
-        if shape["stmt"]:
-            for ev in shape["pre"]:
-                seq("visit_identifier" if ev == "IDENT" else "visit_expression_atom")
-            seq("visit_" + STMT_RULES[shape["stmt"]], directive=shape.get("directive"))
-        if shape["comment"]:
-            seq("visit_comment")
-        seq("visit_line", line_empty=shape["empty"])
-        return outs
-
-    def check_effects(self, effects: List[Effect], context: str) -> None:
-        for e in effects:
-            if e.kind == "QUEUE" and e.info["overwrote"]:
-                self.violations.append({"obligation": "a", "what": "a pending attribute is overwritten (lost)", "where": e.where, "context": context})
-            if e.kind in ("READ", "NEW_SCHEMA") and e.info["pend"]:
-                self.violations.append({"obligation": "b", "what": "%s while an attribute is still pending" % (e.info.get("what") or "the response schema is started"), "where": e.where, "context": context})
-            if e.kind == "COMMIT" and e.info["pend"]:
-                self.commits.append({"age": e.info["age"], "protected": e.info["protected"], "capok": e.info.get("capok", False), "where": e.where, "context": context})
-
-    def explore(self) -> None:
-        init: State = (True, False, 0, False)
-        work = [init]
-        self.states_seen.add(init)
-        shapes = self.line_shapes()
-        while work:
-            st = work.pop()
-            for shape in shapes:
-                for st2, eff in self.step_line(st, shape):
-                    self.transitions += 1
-                    ctxt = "state(hdr=%s,pend=%s,age=%d,cap=%s) line=%s" % (st[0], st[1], st[2], st[3], shape["name"])
-                    self.check_effects(eff, ctxt)
-                    # the text may end after this line ...
-                    self.end_of_input(st2, ctxt)
-                    # ... or continue with an end_of_line
-                    for st3, eff3 in self._run(st2, "visit_end_of_line"):
-                        self.check_effects(eff3, ctxt + " EOL")
-                        if st3 not in self.states_seen:
-                            self.states_seen.add(st3)
-                            work.append(st3)
-
-    def end_of_input(self, st: State, ctxt: str) -> None:
-        outs: List[Tuple[State, List[Effect]]] = [(st, [])]
-        if self.has_visit_definition:
-            outs = [(s2, e + e2) for s, e in outs for s2, e2 in self._run(s, "visit_definition")]
-        for s, e in outs:
-            self.transitions += 1
-            self.check_effects(e, ctxt + " END")
-            if s[1]:
-                self.violations.append({"obligation": "c", "what": "end of input reached with an attribute still pending: the last attribute is silently dropped", "where": "%s (no flush at end of input)" % self.parser.module.relpath, "context": ctxt + " END"})
-            # finalize reads the schemas
-            for s2, e2 in self._run(s, "finalize", cls=self.pl.builder):
-                self.check_effects(e2, ctxt + " finalize")
-
-
-def rule_r1(ctx: Ctx) -> Automaton:
-    ctx.rule("C03.R1", "pending-attribute typestate over all line shapes and endings: never overwritten, never pending at a schema read / `---` / end of input", min_instances=3)
-    a = Automaton(ctx)
-    a.explore()
-    ctx.count(a.transitions)
-    ctx.analysed["C03.R1"] = {"states": sorted(map(str, a.states_seen)), "transitions": a.transitions, "line_shapes": len(a.line_shapes()), "visit_definition": a.has_visit_definition}
-    by: Dict[str, List[Dict[str, Any]]] = {"a": [], "b": [], "c": []}
-    for v in a.violations:
-        by[v["obligation"]].append(v)
-    ctx.check(not by["a"], "_data_type_builder.DataTypeBuilder._queue_attribute", "QUEUE never overwrites a pending attribute", "each attribute statement must be committed before the next one is queued", "", [dict(x) for x in by["a"][:3]])
-    ctx.check(not by["b"], "_data_type_builder.DataTypeBuilder", "schema reads / `---` happen with nothing pending", "a field must not be missing from, or committed into, the wrong schema", "", [dict(x) for x in by["b"][:3]])
-    ctx.check(not by["c"], "_parser._ParseTreeProcessor", "end of input with nothing pending", "the last attribute must be committed however the text ends (no final newline, trailing blanks, trailing comment)", "", [dict(x) for x in by["c"][:3]] + ([{"distinct_contexts": len(by["c"])}] if by["c"] else []))
-    ctx.sample({"rule": "C03.R1", "states": len(a.states_seen), "transitions": a.transitions, "example_shape": a.line_shapes()[5]["name"]})
-    return a
 
 
 def rule_r2(ctx: Ctx) -> None:
@@ -295,7 +166,7 @@ def rule_r4(ctx: Ctx) -> None:
     ctx.check(not bad_svc, fin.short, "ServiceType(request=<first schema>, response=<second schema>)", "the part before `---` is the request, the part after it the response", fin.where(), bad_svc[:2])
 
 
-def rule_r5(ctx: Ctx, a: Optional[Automaton]) -> None:
+def rule_r5(ctx: Ctx, a: Any = None) -> None:
     ctx.rule("C03.R5", "grammar: end_of_line = CR? LF, `_` = blanks/tabs, final end-of-line optional, trailing blanks and comments allowed after a statement, comments run to the end of the line", min_instances=5)
     g = a.g if a is not None else Grammar.load(ctx.repo)
     alpha = list("ab# \t\r\n") + [rx.OTHER]
@@ -448,8 +319,19 @@ def rule_r6(ctx: Ctx) -> None:
                     elif isinstance(t, tuple) and len(t) == 2 and t[0] == "ELEMENTS-OF":
                         t = t[1]
                 got_offsets.append((idx, t[1] if isinstance(t, tuple) and len(t) == 2 and t[0] == "leaf" else repr(v)[:80]))
-            if r.raised or r.attrs != want_attrs or got_headers != want_headers or got_offsets != want_offsets:
-                d = {"text": text_of(lines, final_eol), "found": {"attributes": r.attrs, "section docs": got_headers, "raised": r.raised, "_offset_ read at line": got_offsets}, "expected": {"attributes": want_attrs, "section docs": want_headers, "_offset_ read at line": want_offsets}}
+            # which section each attribute ends up in: fields (with paddings) in source order, constants in source order
+            want_sections: List[Tuple[List[str], List[str]]] = [([], [])]
+            for l2 in lines:
+                if l2.kind == "M":
+                    want_sections.append(([], []))
+                elif l2.kind in ("F", "P"):
+                    want_sections[-1][0].append(l2.name if l2.kind == "F" else "")
+                elif l2.kind == "K":
+                    want_sections[-1][1].append(l2.name)
+            consts = {l2.name for l2 in lines if l2.kind == "K"}
+            got_sections = [([n_ for n_ in c[1] if n_ not in consts], [n_ for n_ in c[1] if n_ in consts]) for c in sections]
+            if r.raised or r.attrs != want_attrs or got_headers != want_headers or got_offsets != want_offsets or got_sections != want_sections:
+                d = {"text": text_of(lines, final_eol), "found": {"attributes": r.attrs, "section docs": got_headers, "raised": r.raised, "_offset_ read at line": got_offsets, "sections (fields, constants)": got_sections}, "expected": {"attributes": want_attrs, "section docs": want_headers, "_offset_ read at line": want_offsets, "sections (fields, constants)": want_sections}}
                 # a text that differs from an accepted one only in blanks on an otherwise empty line is a formatting matter
                 (bad_format if any(l.kind == "W" for l in lines) and not r.raised else bad_model).append(d)
     fn = ctx.func("_parser._ParseTreeProcessor.visit_line")
@@ -459,23 +341,16 @@ def rule_r6(ctx: Ctx) -> None:
 
 
 def run(ctx: Ctx) -> None:
-    a = None
-    try:
-        a = rule_r1(ctx)
-    except AnalysisError as ex:
-        # the typestate machine reads the roles of a few fields off the code (pending-commit slot, header flag, list of
-        # sections); a different private representation is outside it.  R6 decides the same clauses extensionally.
-        ctx.rule("C03.R1", "pending-attribute typestate over all line shapes and endings: never overwritten, never pending at a schema read / `---` / end of input", min_instances=0)
-        ctx.skip_rule("C03.R1", str(ex), "C03.R6 (document model: every sequence of line shapes up to the bound, both endings, schema reads)")
+    # (the typestate machine that first decided R1 read the roles of private fields off the code and was not robust against
+    # a different private representation; R6 decides the same clauses extensionally and R1 is now the part of it that concerns
+    # loss / duplication / misplacement)
     ctx.attempt(rule_r2, ctx)
     from . import c05b
 
     ctx.rule("C03.R3", "directive table: each Specification directive reaches a handler with the specified effect (decision tables shared with C05.R8)", min_instances=9)
-    c05b.rule_r8_directives(ctx, rid="C03.R3")
+    ctx.attempt(c05b.rule_r8_directives, ctx, "C03.R3")
     ctx.attempt(rule_r4, ctx)
     ctx.attempt(rule_r6, ctx)
-    ctx.attempt(rule_r5, ctx, a)
-    if ctx.skipped_rules and any("rule_r6" in e for e in ctx.errors):
-        ctx.error("C03.R1 could not be instantiated and C03.R6, which would have covered it, could not either")
+    ctx.attempt(rule_r5, ctx, None)
     ctx.assume("parsimonious visits children before their parent, left to right (NodeVisitor.visit as written in nodes.py)")
     ctx.undecided("equality of the re-parsed canonical rendering (a round trip over values)")
